@@ -114,6 +114,7 @@ class Walker:
             CANON[n] = "p"
         self.depth = 0
         self.nbuf = 0
+        self.nacc = 0
 
     # -- recognisers
     def reads(self, node):
@@ -180,6 +181,8 @@ class Walker:
         if (isinstance(node, ast.Subscript) and isinstance(node.value, ast.Name) and node.value.id in self.buffers
                 and isinstance(node.slice, ast.Slice) and node.slice.step is None):
             return node, dec
+        if dec is not None and isinstance(node, ast.Name) and node.id in self.buffers:
+            return node, dec              # a whole (sub-)buffer handed to the codec
         return None
 
     def id_read(self, node):
@@ -202,6 +205,14 @@ class Walker:
             if isinstance(st, ast.AugAssign):
                 if not isinstance(st.target, ast.Name) or not isinstance(st.op, (ast.Add, ast.Sub)) or self.reads(st.value):
                     raise Refuse(f"line {st.lineno}: augmented assignment")
+                if st.target.id not in self.index_names:
+                    # an accumulator over already read data (e.g. `names_size += len(name_data)`): recorded in source terms
+                    if st.target.id not in CANON:
+                        self.nacc += 1
+                        CANON[st.target.id] = f"acc{self.nacc}"
+                    desc.derived.setdefault("accs", []).append(f"{CANON[st.target.id]} {'+' if isinstance(st.op, ast.Add) else '-'}= {csrc(st.value)}")
+                    env.pop(st.target.id, None)
+                    continue
                 cur = env.get(st.target.id, Lin(0, {st.target.id: 1}))
                 env[st.target.id] = cur.add(lin_of(st.value, env), 1 if isinstance(st.op, ast.Add) else -1)
                 continue
@@ -248,6 +259,10 @@ class Walker:
         bl = self.blob_read(val)
         if bl is not None:
             node, dec = bl
+            if isinstance(node, ast.Name):
+                desc.blobs.append(dict(name=name, buf=CANON.get(node.id, node.id), lo="0", hi="end", decode=dec))
+                env.pop(name, None)
+                return
             lo = lin_of(node.slice.lower, env) if node.slice.lower is not None else Lin(0)
             hi = str(lin_of(node.slice.upper, env)) if node.slice.upper is not None else "end"
             desc.blobs.append(dict(name=name, buf=CANON.get(node.value.id, node.value.id), lo=str(lo), hi=hi, decode=dec))
@@ -373,12 +388,14 @@ def _loop_shape(lp, tag=""):
     out += [(tag + f"entry:{k}", v) for k, v in lp["entry"].items()]
     out += [(tag + f"stride:{k}", v) for k, v in lp["stride"].items()]
     out += [(tag + k, v) for k, v in _blobs(lp["blobs"])]
-    out += [(tag + f"derived:{k}", v) for k, v in lp["derived"].items() if k != "guards"]
+    out += [(tag + f"derived:{k}", v) for k, v in lp["derived"].items() if k not in ("guards", "accs")]
+    out += [(tag + f"acc:{i}", g) for i, g in enumerate(lp["derived"].get("accs", []))]
+    out += [(tag + f"guard:{i}", g) for i, g in enumerate(lp["derived"].get("guards", []))]
     return out
 
 
 def _top_shape(d):
-    out = [(f"derived:{k}", v) for k, v in d.derived.items() if k != "guards"]
+    out = [(f"derived:{k}", v) for k, v in d.derived.items() if k not in ("guards", "accs")]
     out += [(f"guard:{i}", g) for i, g in enumerate(d.derived.get("guards", []))]
     out += _blobs(d.blobs)
     return out
